@@ -200,7 +200,23 @@ def check_l4(ctx) -> None:
                   f'a base file whose last line has no trailing newline is merged with the first appended line')
 
 
+def check_l5(ctx) -> None:
+    """A result cache in front of the reader must not be *more* layout-insensitive than the reader itself."""
+    from rules.c08 import check_key_injective
+    f = ctx.repo.method('GeophiresXClient', 'get_geophires_result')
+    key_defs = [st for st in ast.walk(f.node) if isinstance(st, ast.Assign) and norm(st.targets[0]) == 'cache_key']
+    if not key_defs:
+        ctx.ok('L5', 'GeophiresXClient.get_geophires_result/no-cache', f.where, 'no result cache')
+        return
+    before = len(ctx.obligations)
+    check_key_injective(ctx, f, key_defs[0], 'L5')
+    if len(ctx.obligations) == before:
+        ctx.ok('L5', 'GeophiresXClient.get_geophires_result/cache-key-not-text-derived', f.where,
+               'cache key does not read the text (content coverage is C08 P5)')
+
+
 def run(ctx) -> None:
+    ctx.rule('L5', 'the client cache key distinguishes every pair of input texts the reader can distinguish (text hashed unmodified)')
     ctx.rule('L1', 'read_input_file: text mode with universal newlines, stripped lines, comment prefixes exactly {#, --, *}, '
                    'name/value stripped, value = 2nd comma field, unconditional keyed store in file order (last wins)')
     ctx.rule('L2', 'every iteration over the input map is commutative (keyed stores only) except the one documented add-on '
@@ -211,4 +227,5 @@ def run(ctx) -> None:
     check_l2(ctx)
     check_l3(ctx)
     check_l4(ctx)
+    check_l5(ctx)
     ctx.undecided('nothing numeric is involved; encodings other than UTF-8 are outside the property')
